@@ -61,6 +61,10 @@ EXTRA_TRUSTED = ["CPython's evaluation order of a decorated class statement (dec
                  "__hash__ = None for a body that defines __eq__",
                  "the base classes of a case are built by the real library; their __mro__ and "
                  "__attrs_attrs__ are inputs of the model (C07 proves how they are collected)"]
+EXTRA_TRUSTED += ["harness/translate_c15.py and harness/translate.py: the fail-closed translators from the Python "
+                  "subset of the definition-time checks to Gallina (Gen/C15_checks.v, Gen/Decide.v) and the "
+                  "injections of model inputs into Python values in C15/Tie.v (key functions / a callable "
+                  "factory are the only callable objects; an empty set is a falsy value)"]
 ASSUMPTIONS = ["user callables (validators, converters, hooks, factories, transformers) do not raise "
                "at definition time and __attrs_init_subclass__ is absent",
                "aliases and names are valid, distinct-from-self identifiers; base classes are valid "
@@ -68,6 +72,24 @@ ASSUMPTIONS = ["user callables (validators, converters, hooks, factories, transf
                "None/True/False"]
 
 XVALUES = [1, 0, "yes", 2.5]
+
+
+def _regenerate():
+    """Both generated files Tie.v imports; statuses merged so that a shape outside either translator's
+    subset makes the tie 'unavailable' instead of a build failure."""
+    from . import translate, translate_c15
+    st = {("Decide: " + k): v for k, v in translate.regenerate_all().items()}
+    st.update(translate_c15.regenerate())
+    return st
+
+
+def pre_build():
+    _regenerate()
+
+
+def translated_tie():
+    return _regenerate(), "theories/C15/Tie.vo"
+
 
 # ------------------------------------------------------------------------------------------------
 # helpers the rendered sources use
